@@ -42,6 +42,10 @@ Fixpoint ge_bound (T B : R) (V C N : list R) : Prop :=
   | _, _, _ => False
   end.
 
-(* the bias estimate of criteria_giles *)
-Definition giles_rem (alpha m3 m2 m1 : R) : R :=
-  Rmax (Rmax m1 (m2 / Rpower 2 alpha)) (m3 / Rpower 2 (2 * alpha)) / (Rpower 2 alpha - 1).
+(* the bias estimate of criteria_giles: extrapolation from the last (up to) three level means (ml as a list; an empty
+   ml raises IndexError in numpy -- the engine always passes at least one level) *)
+Definition giles_rem (alpha : R) (ml : list R) : R :=
+  let rem := nth (length ml - 1) ml 0 in
+  let rem := if Nat.leb 2 (length ml) then Rmax rem (nth (length ml - 2) ml 0 / Rpower 2 alpha) else rem in
+  let rem := if Nat.leb 3 (length ml) then Rmax rem (nth (length ml - 3) ml 0 / Rpower 2 (2 * alpha)) else rem in
+  rem / (Rpower 2 alpha - 1).
